@@ -89,6 +89,10 @@ def handle (ws : List String) : String :=
       match unhex hx >>= Sexp.parse with
       | some s => runInline s
       | none => "err bad-sexp"
+  | ["pottransform", hx] =>
+      match unhex hx >>= Sexp.parse with
+      | some s => runPotTransform s
+      | none => "err bad-sexp"
   | ["complement", hx] =>
       match unhex hx >>= Sexp.parse with
       | some s => runComplement s
